@@ -407,7 +407,13 @@ def addrec_bis(l_sets, marked_left, marked_right):
     """
     was_modified = False
     for marked in list(marked_right):
-        l_temp = [x for x in l_sets if x[0] in marked]
+        # Several consumption rules of one non-terminal are alternatives:
+        # their marked sets are gathered under this non-terminal
+        merged = {}
+        for symbol, marked_sets in l_sets:
+            if symbol in marked:
+                merged.setdefault(symbol, set()).update(marked_sets)
+        l_temp = list(merged.items())
         s_temp = [x[0] for x in l_temp]
         # At least one symbol to consider
         if frozenset(s_temp) == marked and len(marked) > 0:
